@@ -263,4 +263,104 @@ theorem sortedB_replicate (n : Nat) (k : Int) : sortedB (List.replicate n (some 
       simp only [List.replicate_succ] at ih ⊢
       simp [sortedB, keyLt, ih]
 
+
+/-- the knots `0, 1, …, n-1` -/
+def iotaKnots (n : Nat) : List (Option Int) := (List.range' 0 n).map fun i => some (Int.ofNat i)
+
+theorem sortedB_range' (n s : Nat) : sortedB ((List.range' s n).map fun i => some (Int.ofNat i)) = true := by
+  induction n generalizing s with
+  | zero => rfl
+  | succ n ih =>
+    cases n with
+    | zero => rfl
+    | succ m =>
+      have h := ih (s + 1)
+      simp only [List.range'_succ, List.map_cons] at h ⊢
+      simp only [sortedB, keyLt, h, Bool.and_true, Bool.not_eq_true', decide_eq_false_iff_not]
+      simp only [Int.ofNat_eq_natCast]
+      omega
+
+theorem sortedB_iotaKnots (n : Nat) : sortedB (iotaKnots n) = true := sortedB_range' n 0
+
+theorem length_iotaKnots (n : Nat) : (iotaKnots n).length = n := by simp [iotaKnots]
+
+/-- A family of consistent argument tuples of any size: `nd` dimensions, each with `nk` knots `0..nk-1`, order `ord`,
+    `npts` abscissae; one data point (all indices 0); no smoothing, penalty order 0. -/
+def uniArgs (nd nk ord npts mono : Nat) : Args :=
+  ⟨⟨1, nd, List.replicate nd npts, List.replicate nd [0]⟩, 1, List.replicate nd npts, List.replicate nd ord,
+   List.replicate nd (iotaKnots nk), [false], [0], mono⟩
+
+theorem getD_replicate {α} (n i : Nat) (x d : α) (h : i < n) : (List.replicate n x).getD i d = x := by
+  simp [List.getD_eq_getElem?_getD, List.getElem?_replicate, h]
+
+section uni
+variable {nd nk ord npts mono i : Nat}
+
+theorem uni_knotsAt (h : i < nd) : (uniArgs nd nk ord npts mono).knotsAt i = iotaKnots nk := by
+  show (List.replicate nd (iotaKnots nk)).getD i [] = _; exact getD_replicate _ _ _ _ h
+theorem uni_nkAt (h : i < nd) : (uniArgs nd nk ord npts mono).nkAt i = nk := by
+  show ((uniArgs nd nk ord npts mono).knotsAt i).length = nk; rw [uni_knotsAt h, length_iotaKnots]
+theorem uni_ordAt (h : i < nd) : (uniArgs nd nk ord npts mono).ordAt i = ord := by
+  show (List.replicate nd ord).getD i 0 = _; exact getD_replicate _ _ _ _ h
+theorem uni_rangeOf (h : i < nd) : (uniArgs nd nk ord npts mono).rangeOf i = npts := by
+  show (List.replicate nd npts).getD i 0 = _; exact getD_replicate _ _ _ _ h
+theorem uni_coordLen (h : i < nd) : (uniArgs nd nk ord npts mono).coordLen i = npts := by
+  show (List.replicate nd npts).getD i 0 = _; exact getD_replicate _ _ _ _ h
+theorem uni_idxCol (h : i < nd) : (uniArgs nd nk ord npts mono).idxCol i = [0] := by
+  show (List.replicate nd [0]).getD i [] = _; exact getD_replicate _ _ _ _ h
+theorem uni_nsplAt (h : i < nd) (hk : ord + 1 ≤ nk) : (uniArgs nd nk ord npts mono).nsplAt i = nk - ord - 1 := by
+  simp only [Args.nsplAt, uni_nkAt h, uni_ordAt h]; exact nsplinesOf_eq hk
+
+theorem uni_wf : (uniArgs nd nk ord npts mono).data.WF :=
+  ⟨by simp [uniArgs], by simp [uniArgs], by
+    intro c hc
+    simp only [uniArgs] at hc
+    rw [List.eq_of_mem_replicate hc]; rfl⟩
+
+theorem uni_checks (hnd : 1 ≤ nd) (hnp : 1 ≤ npts) (hk : 2 * ord + 2 ≤ nk)
+    (hm : mono = noMonodim ∨ mono < nd) : fitChecks repaired (uniArgs nd nk ord npts mono) = .ok := by
+  rw [fitChecks_ok_iff]
+  refine ⟨rfl, by simp only [uniArgs]; omega, by simp [uniArgs], ?_, by simp [uniArgs], ?_, by simp [uniArgs],
+    by simp [uniArgs], ?_, Or.inr (by simp [uniArgs]), Or.inr (by simp [uniArgs]), ?_, hm⟩
+  · intro i hi
+    have hi' : i < nd := hi
+    rw [uni_idxCol hi', uni_rangeOf hi']
+    refine ⟨by simpa [uniArgs] using hi', by simp, by simpa [uniArgs] using hi', ?_⟩
+    simp only [maxIdx, List.foldl_cons, List.foldl_nil]; omega
+  · intro i hi
+    have hi' : i < nd := hi
+    rw [uni_coordLen hi', uni_rangeOf hi']
+    exact ⟨by simpa [uniArgs] using hi', Nat.le_refl _⟩
+  · intro i hi
+    have hi' : i < nd := hi
+    rw [uni_knotsAt hi', uni_ordAt hi', uni_nkAt hi']
+    exact ⟨by simpa [uniArgs] using hi', sortedB_iotaKnots nk, by simpa [uniArgs] using hi', hk⟩
+  · intro i hi
+    have hi' : i < nd := hi
+    have hpi : (uniArgs nd nk ord npts mono).penIdx i = 0 := by simp [Args.penIdx, uniArgs]
+    refine ⟨by rw [hpi]; simp [uniArgs], by simpa [uniArgs] using hi', ?_⟩
+    have hpa : (uniArgs nd nk ord npts mono).penAt i = 0 := by
+      show ([0] : List Nat).getD ((uniArgs nd nk ord npts mono).penIdx i) 0 = 0
+      rw [hpi]; rfl
+    rw [hpa]; exact Nat.zero_le _
+
+theorem map_range_const {f : Nat → Nat} {c n : Nat} (h : ∀ i, i < n → f i = c) :
+    (List.range n).map f = List.replicate n c := by
+  apply List.ext_getElem
+  · simp
+  · intro i h1 h2
+    simp only [List.getElem_map, List.getElem_range, List.getElem_replicate]
+    exact h i (by simpa using h1)
+
+theorem prodL_replicate (n c : Nat) : prodL (List.replicate n c) = c ^ n := by
+  induction n with
+  | zero => simp [prodL]
+  | succ n ih => rw [List.replicate_succ, prodL_cons, ih, Nat.pow_succ, Nat.mul_comm]
+
+theorem uni_ncoeffs (hk : ord + 1 ≤ nk) : ncoeffs (uniArgs nd nk ord npts mono) = (nk - ord - 1) ^ nd := by
+  unfold ncoeffs
+  have : (uniArgs nd nk ord npts mono).data.ndim = nd := rfl
+  rw [this, map_range_const (c := nk - ord - 1) fun i hi => uni_nsplAt hi hk, prodL_replicate]
+end uni
+
 end PsV.Fit
